@@ -216,6 +216,9 @@ func (l *SnowflakeListener) acceptStreams(conn *kcp.UDPSession) error {
 		// We store "" in the map in the absence of client_ip. This log
 		// message means you should increase clientIDAddrMapCapacity.
 		log.Printf("no address in clientID-to-IP map (capacity %d)", clientIDAddrMapCapacity)
+		// Report no address, as when there is no client_ip; a nil address
+		// would make the RemoteAddr().String() of the queued conns panic.
+		addr = ClientMapAddr("")
 	}
 
 	smuxConfig := smux.DefaultConfig()
